@@ -672,6 +672,11 @@ func (l *lexer) lexRedir() action {
 		}
 	case IO_NUMBER:
 		goto Redir
+	case WORD:
+		// reserved word
+		if tok = l.tr(tok); tok != WORD {
+			return l.lexCmd(tok)
+		}
 	}
 	return l.lexToken(tok)
 Redir:
